@@ -1,15 +1,33 @@
-//! kv-pub: conformance harness crate (see /verif/DESIGN.md).
+//! kv-pub: conformance harness for the publication server (C10, C11).
+//! See /verif/DESIGN.md and src/pubd.rs.
 #![allow(dead_code)]
 
 #[path = "../../harness/src/common.rs"]
 mod common;
+mod pubd;
+
+use std::path::PathBuf;
+
+fn arg(args: &[String], name: &str) -> Option<String> {
+    args.iter().position(|a| a == name).and_then(|i| args.get(i + 1)).cloned()
+}
+
+fn flag(args: &[String], name: &str) -> bool {
+    args.iter().any(|a| a == name)
+}
 
 fn main() {
     common::install_panic_hook();
     let args: Vec<String> = std::env::args().collect();
     match args.get(1).map(|s| s.as_str()).unwrap_or("") {
+        "run-pub" => {
+            let inp = arg(&args, "--in").map(PathBuf::from).unwrap();
+            let out = arg(&args, "--out").map(PathBuf::from).unwrap();
+            let work = arg(&args, "--work").map(PathBuf::from).unwrap();
+            pubd::run(&inp, &out, &work, !flag(&args, "--unsigned"));
+        }
         _ => {
-            eprintln!("usage: kv-pub <subcommand> --in <behaviours.ndjson> --out <trace.ndjson> --work <dir>");
+            eprintln!("usage: kv-pub run-pub --in <behaviours.ndjson> --out <trace.ndjson> --work <dir> [--unsigned]");
             std::process::exit(2);
         }
     }
